@@ -714,16 +714,18 @@ func (s *stepper) classify(err error) (exit, exc string) {
 	return "other: " + msg, "none"
 }
 
-// value projects a returned batch: its value and whether its metadata is exactly the user
-// metadata the script attached (no framework keys, nothing lost).
-func (s *stepper) value(b *vgirpc.ClientBatch, unaryX int64) (v any, md any) {
+// value projects a returned batch: its value, its row count and whether its metadata is exactly
+// the user metadata the script attached (no framework keys, nothing lost). A zero-row data batch
+// (turn outcome "emit0": an empty partition, emitted without user metadata) has no value: v = 0.
+func (s *stepper) value(b *vgirpc.ClientBatch, unaryX int64) (v any, rows int, md any) {
 	if b == nil || b.Batch == nil {
-		return "nil batch", true
+		return "nil batch", -1, true
 	}
 	defer b.Release()
 	md = true
+	rows = int(b.Batch.NumRows())
 	want := map[string]string{}
-	if s.meta && s.kind != "unary" {
+	if s.meta && s.kind != "unary" && rows != 0 {
 		want["user.key"] = "user-value"
 	}
 	if len(b.Metadata) != len(want) {
@@ -734,21 +736,27 @@ func (s *stepper) value(b *vgirpc.ClientBatch, unaryX int64) (v any, md any) {
 			md = fmt.Sprintf("metadata %v, want %v", b.Metadata, want)
 		}
 	}
-	if b.Batch.NumRows() != 1 || b.Batch.NumCols() < 1 {
-		return fmt.Sprintf("batch with %d rows, %d cols", b.Batch.NumRows(), b.Batch.NumCols()), md
+	if b.Batch.NumCols() < 1 || (rows != 0 && rows != 1) {
+		return fmt.Sprintf("batch with %d rows, %d cols", b.Batch.NumRows(), b.Batch.NumCols()), rows, md
 	}
 	col, ok := b.Batch.Column(0).(*array.Int64)
 	if !ok {
-		return fmt.Sprintf("column 0 is %s", b.Batch.Column(0).DataType()), md
+		return fmt.Sprintf("column 0 is %s", b.Batch.Column(0).DataType()), rows, md
+	}
+	if col.Len() != rows {
+		return fmt.Sprintf("column 0 has %d values in a batch of %d rows", col.Len(), rows), rows, md
+	}
+	if rows == 0 {
+		return 0, rows, md
 	}
 	x := col.Value(0)
 	if s.kind == "unary" {
 		if x == svc.F(unaryX) {
-			return 1, md
+			return 1, rows, md
 		}
-		return fmt.Sprintf("unary result %d for x=%d", x, unaryX), md
+		return fmt.Sprintf("unary result %d for x=%d", x, unaryX), rows, md
 	}
-	return x, md
+	return x, rows, md
 }
 
 func (s *stepper) paramsStream(sc svc.Script) arrow.RecordBatch {
@@ -782,6 +790,7 @@ func (s *stepper) Step(i int, st replay.Step) (replay.Obs, error) {
 	defer cancel()
 	var err error
 	var v, md any = 0, true
+	rows := -1 // row count of the batch this call returned; -1: it returned none
 	end := false
 	arm := func() {
 		s.rt.reqs = nil
@@ -823,14 +832,23 @@ func (s *stepper) Step(i int, st replay.Step) (replay.Obs, error) {
 		res, err = s.client.CallUnary(ctx, "u_val", params, expected)
 		params.Release()
 		if err == nil {
-			v, md = s.value(res, x)
+			v, rows, md = s.value(res, x)
 		}
 	case "Open":
 		k := replay.Str(a, "kind")
 		scr := replay.Map(a, "sc")
 		n, lim := replay.Int(scr, "n"), replay.Int(scr, "lim")
-		if lim <= 0 {
-			lim = 1
+		if k != "prod" {
+			lim = 1 // (the batch limit does not concern exchange streams)
+		}
+		// positions at which the script emits a zero-row data batch
+		zero := map[int]bool{}
+		for _, z := range replay.List(scr, "zs") {
+			pos := replay.Int(map[string]any{"z": z}, "z")
+			if pos < 1 {
+				return nil, fmt.Errorf("script zs holds %v (%T)", z, z)
+			}
+			zero[pos] = true
 		}
 		if err := s.build(lim); err != nil {
 			return nil, err
@@ -845,16 +863,22 @@ func (s *stepper) Step(i int, st replay.Step) (replay.Obs, error) {
 		if s.logs {
 			emit = "emitlogs"
 		}
-		for j := 0; j < n; j++ {
-			sc.Turns = append(sc.Turns, emit)
+		turnAt := func(pos int) string {
+			if zero[pos] {
+				return "emit0"
+			}
+			return emit
+		}
+		for j := 1; j <= n; j++ {
+			sc.Turns = append(sc.Turns, turnAt(j))
 		}
 		if replay.Str(scr, "term") == "error" {
 			sc.Turns = append(sc.Turns, "error")
 		} else if k == "prod" {
 			sc.Turns = append(sc.Turns, "finish")
 		} else {
-			for j := 0; j < 12; j++ {
-				sc.Turns = append(sc.Turns, emit)
+			for j := n + 1; j <= n+12; j++ {
+				sc.Turns = append(sc.Turns, turnAt(j))
 			}
 		}
 		s.wantType, s.wantKind, s.wantMsg = "ValueError", "", "scripted value error"
@@ -907,7 +931,7 @@ func (s *stepper) Step(i int, st replay.Step) (replay.Obs, error) {
 		b, ok, err = s.stream.Next(ctx)
 		if err == nil {
 			if ok {
-				v, md = s.value(b, 0)
+				v, rows, md = s.value(b, 0)
 			} else {
 				end = true
 				if b != nil {
@@ -952,7 +976,7 @@ func (s *stepper) Step(i int, st replay.Step) (replay.Obs, error) {
 		b, err = s.stream.Exchange(ctx, in)
 		in.Release()
 		if err == nil {
-			v, md = s.value(b, 0)
+			v, rows, md = s.value(b, 0)
 		} else if b != nil {
 			v = "batch returned together with an error"
 		}
@@ -1001,6 +1025,7 @@ func (s *stepper) Step(i int, st replay.Step) (replay.Obs, error) {
 	obs["ok"] = err == nil
 	obs["end"] = end
 	obs["v"] = v
+	obs["rows"] = rows
 	obs["md"] = md
 	obs["exc"] = exc
 	obs["posts"] = len(s.rt.reqs)
